@@ -232,9 +232,15 @@ def routeJoinOperandOld := routeJoinOperandWith resolveJoinOld
 
 /-- the "DBT workaround" of `PlanJoinTSPredictorQuery.adapt_dbt_query` on the data source SRC of
 `(select … from SRC) JOIN <time-series model>` inside CREATE TABLE / INSERT / UPDATE..FROM: `integration` is
-`parts[0]` of the statement's target table (`None` outside such statements); a source whose first part, AS WRITTEN,
-is not a known database gets that integration in front -/
+`parts[0]` of the statement's target table (`None` outside such statements); a source whose first part, lower-cased
+(since 18f6c71), is not a known database gets that integration in front -/
 def dbtSource (c : Catalog) (integration : Option Name) (parts : List Name) : List Name :=
+  match integration, parts with
+  | some i, p :: _ => if lower p ∈ c.databases then parts else i :: parts
+  | _, _ => parts
+
+/-- the workaround before 18f6c71 (kept for the regression example): the first part was compared as written -/
+def dbtSourceOld (c : Catalog) (integration : Option Name) (parts : List Name) : List Name :=
   match integration, parts with
   | some i, p :: _ => if p ∈ c.databases then parts else i :: parts
   | _, _ => parts
